@@ -1,7 +1,7 @@
 #!/venv/bin/python
 """Verify the behaviour-preserving changes of the fifth round delivered by a sub-agent and record them under /verif/benign/.
 
-usage: benign_collect.py <PROP> [--suite]
+usage: benign_collect.py <PROP> [--suite] [--wave6]
   /tmp/seed/out5-<PROP>/benign<k>/{patch.diff,demo.py,notes.md}, k = 1..3, worktree /tmp/seed/w5-<PROP>
 Steps per change: demo on the clean worktree (must exit 0), apply the patch, demo again (must exit 0), compile, optionally the baseline
 suite (448 stable tests must pass), revert.  An accepted change is copied to /verif/benign/<PROP>-<k+4>/ with a meta.json; the checks are
@@ -24,10 +24,11 @@ def sh(cmd, cwd=None, env=None, timeout=3600):
 def main():
     prop = sys.argv[1].upper()
     suite = "--suite" in sys.argv
-    wt = "/tmp/seed/w5-%s" % prop
+    w6 = "--wave6" in sys.argv
+    wt = "/tmp/seed/%s-%s" % ("w6" if w6 else "w5", prop)
     out = []
-    for k in (1, 2, 3):
-        src = "/tmp/seed/out5-%s/benign%d" % (prop, k)
+    for k in ((4,) if w6 else (1, 2, 3)):          # sixth round: one refactoring per agent, id <P>-8
+        src = "/tmp/seed/out6-%s/benign1" % prop if w6 else "/tmp/seed/out5-%s/benign%d" % (prop, k)
         patch, demo = os.path.join(src, "patch.diff"), os.path.join(src, "demo.py")
         if not (os.path.exists(patch) and os.path.exists(demo)):
             out.append(dict(id="%s-%d" % (prop, k + 4), status="missing"))
@@ -49,7 +50,7 @@ def main():
             res["compiles"] = rcc == 0
             if suite:
                 junit = tempfile.mktemp(suffix=".xml")
-                sh("/venv/bin/python -m pytest -q -p no:cacheprovider --timeout=900 -n 16 --junitxml=%s" % junit, cwd=wt, env=dict(os.environ, OMP_NUM_THREADS="1"))
+                sh("/venv/bin/python -m pytest -q -p no:cacheprovider --timeout=900 -n 8 --junitxml=%s" % junit, cwd=wt, env=dict(os.environ, OMP_NUM_THREADS="1"))
                 rct, ot = sh("%s/tools/baseline_compare.py %s" % (VERIF, junit))
                 res["suite"] = ot.strip().splitlines()[0] if ot.strip() else "?"
                 res["suite_ok"] = rct == 0
@@ -66,7 +67,7 @@ def main():
                 if os.path.exists(os.path.join(src, fn)):
                     shutil.copy(os.path.join(src, fn), os.path.join(d, fn))
             with open(os.path.join(d, "meta.json"), "w") as f:
-                json.dump(dict(id=res["id"], property=prop, round=5, source="independent sub-agent given only the property text and a scratch worktree",
+                json.dump(dict(id=res["id"], property=prop, round=6 if w6 else 5, source="independent sub-agent given only the property text and a scratch worktree",
                                verification=res), f, indent=1)
         else:
             shutil.rmtree(d, ignore_errors=True)
